@@ -23,7 +23,6 @@ import re
 import shutil
 import sys
 import tempfile
-import types
 
 import common
 from common import Check, InfraError, main_wrapper
@@ -293,16 +292,11 @@ def valid_pair_sections(rng):
 
 def import_vela():
     common.setup_repo_path()
-    try:
-        from ethosu import mlw_codec  # noqa: F401
-    except ImportError:
-        # configuration resolution never touches the codec; avoid a C build for a git worktree without the .so
-        import ethosu
+    sys.path.insert(0, common.HERE)
+    from tables.config import import_vela as _imp
 
-        stub = types.ModuleType("ethosu.mlw_codec")
-        sys.modules["ethosu.mlw_codec"] = stub
-        ethosu.mlw_codec = stub
-    from ethosu.vela import architecture_features, vela
+    vela = _imp()
+    from ethosu.vela import architecture_features
 
     if not os.path.abspath(vela.__file__).startswith(os.path.abspath(common.REPO)):
         raise InfraError("ethosu.vela was imported from %s, not from %s" % (vela.__file__, common.REPO))
